@@ -36,6 +36,23 @@ func main() {
 	seed := flag.Int64("seed", 1, "seed")
 	n := flag.Int("n", 200, "grammars to mine for classes")
 	flag.Parse()
+	// every Unicode class with a member below 128 (categories, properties, scripts): plain and inverted; the tables of
+	// some (Pd, Pc, Ps, Pe, STerm, Other_Math, ..) reach Basic Latin only through a strided entry that ends far outside it
+	for _, tabs := range []map[string]*unicode.RangeTable{unicode.Categories, unicode.Properties, unicode.Scripts} {
+		names := make([]string, 0, len(tabs))
+		for name, rt := range tabs {
+			for r := rune(0); r < 128; r++ {
+				if unicode.Is(rt, r) {
+					names = append(names, name)
+					break
+				}
+			}
+		}
+		sort.Strings(names)
+		for _, name := range names {
+			probes = append(probes, `[\p{`+name+`}]`, `[^\p{`+name+`}a-c]`)
+		}
+	}
 	set := map[string]bool{}
 	for _, p := range probes {
 		set[p] = true
